@@ -107,6 +107,16 @@ def default_metric_rules(r, pre=""):
             _, val = r.P.find_class_attr(cq, attr)
             got.append(ast.unparse(val).split(".")[-1] if val is not None else None)
         rep.ob(pre + "C05-DT", cq, got == [chain, cdr], f"{cname} compares the {chain.lower()} CDR3 loop(s) only", f"{r.P.modules[ci.module].relpath}:{ci.node.lineno}", expected=f"{chain}, {cdr}", found=str(got), key=f"scope {cname}")
+    # "Levenshtein" / "CDR3 Levenshtein" as the default means the plain, unit-weight distance: the metrics the table constructs without
+    # arguments must have all their weight parameters defaulting to 1
+    for cq in ["pyrepseq.metric.levenshtein.WeightedLevenshtein", "pyrepseq.metric.tcr_metric.tcr_levenshtein.TcrLevenshtein"] + [f"pyrepseq.metric.tcr_metric.tcr_levenshtein.{c}" for c in SCOPES]:
+        iq = r.P.classes[cq].methods.get("__init__") if cq in r.P.classes else None
+        if iq is None:
+            continue
+        si = r.A.summary(iq)
+        bad = [(p[0], p[1]) for p in si.params if p[0].endswith("_weight") and not (p[1] is not None and strip(p[1]) == const(1))]
+        rep.ob(pre + "C05-DT", iq, not bad, f"{cq.rsplit('.', 1)[1]}() without arguments is the unit-weight metric", where_of(r.P, si.func, si.func.node), expected="every *_weight parameter defaults to 1",
+               found=", ".join(f"{n}={show(d, 10) if d is not None else '<required>'}" for n, d in bad) or "all 1", key=f"unit defaults {cq.rsplit('.', 1)[1]}")
     rep.floor(pre + "C05-DT", 4)
 
 
